@@ -4,6 +4,14 @@ and record in its meta.json which checks/rules detect it; also fills `needs_to_m
 import json, os, re, subprocess, sys
 VERIF = os.path.dirname(os.path.dirname(os.path.abspath(__file__)))
 NEEDS = {
+ 'seed-C02-4': 'a block whose best 8-bit score equals the scaled threshold while holding a real hit: threshold at or below the minimum score on a worst-scoring sequence (t = 0), or a matrix with -inf cells (all bytes and t collapse to 0), or threshold = max score on a consensus occurrence',
+ 'seed-C04-4': 'two configure / configure_wrap calls on one striped buffer with strictly growing motif widths (e.g. 3 then 8) and no re-striping in between',
+ 'seed-C06-4': 'AVX2 / dispatched encode_into with len % 32 == 31 (31, 63, 95, ...): one extra 32-byte load/store reads 1 byte past the input and writes 1 symbol past dst',
+ 'seed-C09-4': 'CountMatrix::from_sequences with a sequence longer than the first one, given after a shorter one (["TCA", "TTAT"]) or after an empty first sequence: truncated and accepted',
+ 'seed-C14-4': 'a TRANSFAC motif of width >= 100 (1-based row labels; 101 with 0-based labels): the third digit of the row label becomes the first count and the last count is dropped',
+ 'seed-C15-4': 'a JASPAR-2016 record with a matrix line labelled by the wildcard symbol (N for DNA, X for protein; e.g. one-byte substitution T -> N): index out of bounds in build_matrix',
+ 'seed-C17-4': 'one StripedSequence object scored first with a wide motif and then with a narrower one through ScoringMatrix.calculate: the look-ahead rows are scored as sequence rows and positions are mis-mapped',
+ 'seed-C19-4': 'comparing two matrices with different row counts whose common leading rows are identical (empty vs non-empty, new(3) vs new(5), a matrix and its shrunk clone)',
  'seed-C01-3': 'the same StripedSequence configured for a motif of width >= 2 and then reconfigured for a wider one: the additional look-ahead rows are copied from rows 0.. instead of rows wrap..; a first configuration is unaffected',
  'seed-C02-3': "AVX2 host, a scanner block of >= 2 rows whose only qualifying 8-bit scores sit in the block's last row (e.g. one site at position col*R + R-1): max_u8 never reads that row, the block is skipped and the hits are lost",
  'seed-C03-3': 'two near-tied top positions that 8-bit rounding reorders (exact(B) > exact(A), dscore(B) < dscore(A)), A visited first as an improvement over an earlier hit; depends on block size and prior next() calls',
